@@ -24,5 +24,7 @@ def run(ctx):
     run_traces(ctx, "tr_source", runs, "source", r"explained-by-SourceFold.step (\d+)", "L-trace source", "source", timeout=600)
     # suspension clause: the source suspended from its own registration / event handler, a merge right after - nothing before the resume
     run_traces(ctx, "c15_regsusp", [[ctx.seed]], None, None, "L-api suspended source", "regsusp", timeout=200)
+    # DATA_ADD at its wrap-around: merged values that cancel modulo 2^64 (never a zero reported, sums agree)
+    run_traces(ctx, "c15_wrap", [[ctx.seed * 10 + i, 3000 if ctx.thorough else 800] for i in range(2)], None, None, "L-api cancelling merges", "wrap", timeout=200)
     ctx.cov["rule"] = ("tr_source: DATA_ADD / DATA_OR / DATA_REPLACE x global / concurrent / serial target, 4 merging threads, handler that yields and sometimes suspends and resumes its own "
                        "source, one external suspend/resume; distinct_nontrivial = ds_pending_data transitions explained; items = handler invocations checked")
